@@ -46,6 +46,10 @@ RULE = (
     "mode tok: arbitrary float64 / float32 / np.int64 / np.int32 / 0-d arrays / big ints, numbers cross as the texts "
     "Python prints for them (float(token)==value checked here), record_mean results are taken from the implementation "
     "and checked against the mean at 1e-12; (fmt) str(float) and f'{x:<8.3g}' of the model vs CPython. "
+    "about one case in three has a key whose every value is a numeric-looking / NA-looking / empty string ('007', '1e3', "
+    "'nan', 'inf', 'true', '' ...; always excluded for csv, always read back through read_json where it must stay a str), "
+    "about one in three a date-like key name (timestamp*, *_at, *_time, modified, date*) holding epoch-range ints (s/ms/us), "
+    "and one float in seven of mode tok is a subnormal double (5e-324, 1e-320, ...). "
     "Keys are clean identifiers (no , \" CR LF #). non-trivial = CSV configured and a dump introduces a new CSV column "
     "after an earlier row that holds a string cell with a quote, comma or line break; distinct = distinct canonical case"
 )
@@ -1125,6 +1129,14 @@ def check_cases(ctx, cases):
             rep.count("string_with_line_break")
         if nt:
             rep.count("nontrivial:late_column_after_quoted_special")
+        vals = [o["op"][2] for o in obs if o["op"][0] in ("r", "m")]
+        if any(v["t"] == "str" and v["v"] in NUMLIKE for v in vals):
+            rep.count("case_with:numeric_looking_string")
+        if any(o["op"][0] in ("r", "m") and o["op"][1] in DATE_KEYS and o["op"][2].get("t") in ("int", "i64")
+               and abs(o["op"][2]["v"]) >= 10**9 for o in obs):
+            rep.count("case_with:date_like_key_epoch_int")
+        if any("h" in v and v["t"] in ("float", "f64", "arr0") and 0 < abs(float.fromhex(v["h"])) < 2.2250738585072014e-308 for v in vals):
+            rep.count("case_with:subnormal_float")
         guarded(ctx, case, lambda: oracle(ctx, case, obs))
         ops, _ = model_ops(case, obs)
         plan.append((case, obs, len(allops), len(ops)))
